@@ -154,16 +154,37 @@ ALIAS_VALUES = [S('int', '1'), S('str', 'x'), S('bool', 'true'), S('float', '1.5
 
 
 def alias_unit(res, i):
+    for where in ('value', 'item0', 'item1', 'dictvalue'):
+        alias_unit_at(res, i, where)
+
+
+def alias_unit_at(res, i, where):
     t = ALIAS_TYPES[i]
     en = {'name': 'En', 'kind': 'enum', 'members': ['north', 'south']}
-    spec = {'classes': catalog.BASE + [en, {'name': 'K', 'params': [('z', 'int'), ('a', 'any'), ('b', t)]}], 'root': ('cls', 'K')}
+    tb = {'value': t, 'item0': ('list', t), 'item1': ('list', t), 'dictvalue': ('dict', 'str', t)}[where]
+    spec = {'classes': catalog.BASE + [en, {'name': 'K', 'params': [('z', 'int'), ('a', 'any'), ('b', tb)]}], 'root': ('cls', 'K')}
     case = loadcase.Case(spec)
+    good = docs.valid(spec, t)[:1]
     for v in ALIAS_VALUES:
         res.states += 1
-        root = models.to_node(M([(S('str', 'z'), S('int', '0')), (S('str', 'a'), v), (S('str', 'b'), v)]))
-        root.value[2] = (root.value[2][0], root.value[1][1])        # b's value IS a's value: anchor and alias
+        if where == 'value':
+            bval = v
+        elif where == 'item0':
+            bval = Q([v] + good)
+        elif where == 'item1':
+            bval = Q(good + [v])
+        else:
+            bval = M([(S('str', 'k'), v)])
+        root = models.to_node(M([(S('str', 'z'), S('int', '0')), (S('str', 'a'), v), (S('str', 'b'), bval)]))
+        anchor = root.value[1][1]
+        if where == 'value':
+            root.value[2] = (root.value[2][0], anchor)        # b's value IS a's value: anchor and alias
+        elif where in ('item0', 'item1'):
+            root.value[2][1].value[0 if where == 'item0' else len(good)] = anchor
+        else:
+            root.value[2][1].value[0] = (root.value[2][1].value[0][0], anchor)
         text = case.R.serialize(root)
-        plain = case.R.render(M([(S('str', 'z'), S('int', '0')), (S('str', 'a'), v), (S('str', 'b'), v)]))
+        plain = case.R.render(M([(S('str', 'z'), S('int', '0')), (S('str', 'a'), v), (S('str', 'b'), bval)]))
         o, op = case.impl(text), case.impl(plain)
         res.transitions += 1
         res.traces += 2
